@@ -96,12 +96,13 @@ func (r *Run) opMpuPart(op *Op) {
 		return
 	}
 	if u == nil || u.Gone || mismatch {
-		r.expectNoUpload(resp, "mpu.part", "upload-part")
 		if mismatch {
 			if after := r.observeUploads(u.Bucket); strings.Join(before, "\n") != strings.Join(after, "\n") {
-				r.fail("frame.others", "a part uploaded under another key's upload id changes that upload "+r.bctx(), fmt.Sprint(before), fmt.Sprint(after))
+				r.fail("frame.others", "a part uploaded with an upload id that belongs to another key or bucket changes that upload "+r.bctx(), fmt.Sprint(before), fmt.Sprint(after))
 			}
+			r.ok("frame.others")
 		}
+		r.expectNoUpload(resp, "mpu.part", "upload-part")
 		return
 	}
 	if !resp.OK() {
@@ -188,6 +189,15 @@ func (r *Run) opMpuComplete(op *Op) {
 		r.ok("mpu.reject")
 	}
 	if u == nil || u.Gone || mismatch {
+		if mismatch {
+			// role in a C10 run: the upload of one key is not usable through another key
+			after := r.observeKey(bucket, key)
+			upAfter := r.observeUploads(u.Bucket)
+			if *after != *keyBefore || strings.Join(upAfter, "\n") != strings.Join(upBefore, "\n") {
+				r.fail("frame.others", "a complete request with an upload id that belongs to another key or bucket takes effect "+r.bctx(), keyBefore.String()+" "+fmt.Sprint(upBefore), after.String()+" "+fmt.Sprint(upAfter))
+			}
+			r.ok("frame.others")
+		}
 		r.expectNoUpload(resp, "mpu.reject", "complete")
 		unchanged("no such upload")
 		return
@@ -201,16 +211,21 @@ func (r *Run) opMpuComplete(op *Op) {
 		unchanged(why)
 		return
 	}
-	me := r.me()
-	if me.faulted && !resp.OK() {
-		b := r.M.Buckets[bucket]
-		k := b.Keys[key]
-		if k == nil {
-			k = &model.Key{}
-			b.Keys[key] = k
+	if r.faultedOut(resp, bucket, key) {
+		if !resp.OK() {
+			// the object is indeterminate after a disk fault, but a complete
+			// that failed must leave the pending upload as it was
+			if after := r.observeUploads(u.Bucket); strings.Join(after, "\n") != strings.Join(upBefore, "\n") {
+				r.fail("mpu.reject", "a complete request that failed on a disk error changed or dropped the pending upload "+r.bctx(), fmt.Sprint(upBefore), fmt.Sprint(after))
+			}
+			r.ok("mpu.reject")
+			r.probe("complete failed on an injected disk fault")
+			return
 		}
-		k.Indet = true
-		return
+		// acknowledged although a fault hit: judged as usual below
+		if k := r.M.Buckets[bucket].Keys[key]; k != nil {
+			k.Indet = false
+		}
 	}
 	var x xCompleteResult
 	if resp.Status != 200 || xml.Unmarshal(resp.Body, &x) != nil {
@@ -258,6 +273,13 @@ func (r *Run) opMpuAbort(op *Op) {
 		r.fail("mpu.abort", "abort changes the stored object "+r.bctx(), keyBefore.String(), after.String())
 	}
 	if u == nil || u.Gone || mismatch {
+		if mismatch {
+			lp := r.quiet("GET", target(u.Bucket, u.Key, url.Values{"uploadId": {u.ID}}))
+			if lp.Status != 200 {
+				r.fail("frame.others", "an abort with an upload id that belongs to another key or bucket removes that upload "+r.bctx(), "upload still pending", lp.String())
+			}
+			r.ok("frame.others")
+		}
 		r.expectNoUpload(resp, "mpu.abort", "abort")
 		return
 	}
